@@ -21,6 +21,9 @@ var (
 	// VerifNoteHook only reports a fact (never parks): commit of a transaction, the CAS
 	// drawn for a mutation.
 	VerifNoteHook func(name, detail string, n uint64)
+	// VerifFaultHook lets the harness inject an error at a cooperative fault point ("buggify"):
+	// a non-nil result is used as if the operation at that point had failed with it.
+	VerifFaultHook func(name string) error
 )
 
 func verifLock(m *sync.Mutex, site string) {
@@ -39,6 +42,13 @@ func verifNote(name, detail string, n uint64) {
 	if h := VerifNoteHook; h != nil {
 		h(name, detail, n)
 	}
+}
+
+func verifFault(name string) error {
+	if h := VerifFaultHook; h != nil {
+		return h(name)
+	}
+	return nil
 }
 
 type verifClock struct{ fn func() uint64 }
